@@ -92,6 +92,24 @@ def run_cfg(ctx, p, cfg):
                 # the one documented tolerance: a rename whose source does not exist (a missing intermediate archive)
                 tolerated = False
                 if leaks and c.callee == "std::fs::rename":
+                    # cut the "kind is NotFound" edge of every test of the error's kind: what is left must not reach an Ok return
+                    cuts = []
+                    for blk2 in f.blocks:
+                        if blk2["term"]["k"] != "switch" or blk2["id"] not in f.reachable_blocks():
+                            continue
+                        si2 = SwitchInfo(f, blk2["id"])
+                        nf2 = cmp_nf(si2.discr, True)
+                        if nf2 and nf2[0] in ("Eq", "Ne") and any(x[0] == "call" and x[1] == "std::io::error::Error::kind" for x in walk(si2.discr)) and \
+                                any(x[0] == "agg" and x[2] == "NotFound" or (x[0] == "const" and x[2] == "NotFound") for x in walk(si2.discr)):
+                            t_nf = si2.target_of(nf2[0] == "Eq")
+                            if t_nf is not None:
+                                cuts.append((blk2["id"], t_nf))
+                    if cuts:
+                        starts = [si_t for blk_, _ in leaks for si_t in [SwitchInfo(f, blk_).target_of("Err"), SwitchInfo(f, blk_).target_of("Break")] if si_t is not None]
+                        # .. except through a second file-system attempt (the copy fallback), whose own result is then what is returned
+                        fallback = {c2.block for c2 in f.calls() if (c2.callee or "").startswith("std::fs::") and c2.block != c.block}
+                        tolerated = all(not (q.skipping_paths(f, st_, fallback, oks, cut_edges=cuts) or (st_ in oks)) for st_ in starts)
+                if leaks and c.callee == "std::fs::rename" and not tolerated:
                     tolerated = all(any(any(x[0] == "call" and x[1] == "std::io::error::Error::kind" for x in walk(si2.discr)) and
                                         any(x[0] == "agg" and x[2] == "NotFound" or (x[0] == "const" and x[2] == "NotFound") for x in walk(si2.discr))
                                         for sb2, si2, al2 in f.conditions(ob)) for _, obs in leaks for ob in obs)
